@@ -141,8 +141,14 @@ class Operand(ABC):
         if not self.is_unknown():
             return self
 
+        if old_value.is_explicit_extended():
+            return ExtendedOperand(self.operand_string, self.instruction, value=self.value)
+
         if self.value.is_numeric() and (self.value.is_direct() or old_value.is_explicit_direct()):
             return DirectOperand(self.operand_string, self.instruction, DirectNumericValue(self.value.int))
+
+        if self.value.is_address() and old_value.is_explicit_direct():
+            return DirectOperand(self.operand_string, self.instruction, value=self.value)
 
         return ExtendedOperand(self.operand_string, self.instruction, value=self.value)
 
